@@ -58,7 +58,7 @@ def run(ck):
         deaths = vlib.run_executions(exe, lambda st: ["c06", "replay", sp, st, lvl], len(scripts), tp)
         vlib.conformance(ck, name, "TraceOrderedMap", "trace.cfg", tp, deaths, diag_of, min_events=len(scripts))
     # ---- V: churn; several processes = several hash seeds
-    n = 240 if thorough else 48
+    n = 800 if thorough else 48
     nops = 1500 if thorough else 600
     chunks = 6 if thorough else 3
     for c in range(chunks):
